@@ -480,7 +480,7 @@ def normal_gradient(ctx):
             continue
         res.saw(sag), res.saw(sn)
         sym = Sym()
-        lens = {'self.c': 3, 'self.c[*]': 2}
+        lens = {'self.c': 3, 'self.c[*]': 2, '*': 3}
 
         def iters(it, ev):
             if isinstance(it, ast.Name) and it.id == 'non_zero_indices':
